@@ -16,7 +16,16 @@ structure QInv (s : Shared) : Prop where
   /-- every successfully enqueued item was dequeued, flushed or is still in the channel -/
   conserve : s.enq = s.deqd ++ s.flushed ++ s.queue
   flushed_closed : s.rxOpen = true → s.flushed = []
-  handled_eq : s.handled = msgIds s.deqd
+  /-- every dequeued message had its handler started, is the one taken whose handler has not been
+  polled yet, or was dropped in that window -/
+  handled_eq : msgIds s.deqd = s.handled ++ s.taken.toList ++ s.dropped
+  /-- a message is taken only while the receiver is in its loop -/
+  taken_live : s.taken.isSome = true → s.rxStopped = false
+  /-- a dequeued message is dropped only when the loop is left for another reason than the marker -/
+  dropped_why : s.dropped ≠ [] → s.stoppedByOther = true ∧ s.rxStopped = true
+  dropped_one : s.dropped.length ≤ 1
+  /-- after the marker was dequeued nothing is taken or dropped -/
+  marker_no_drop : .drain ∈ s.deqd → s.dropped = []
   drained_eq : s.drainedExits = s.deqd.count .drain
   stopped : .drain ∈ s.deqd → s.rxStopped = true
   /-- the channel is closed only after the receiver left its loop … -/
@@ -31,18 +40,22 @@ theorem qinv_stepThread {s s' : Shared} {stack stack' : List Frame}
     (hs : stepThread s stack = some (s', stack')) (h : QInv s) : QInv s' := by
   have e := stepThread_effect hs
   obtain ⟨l, h1, h2, _⟩ := e.chan
-  obtain ⟨c1, c2, c3, c4, c5, c6, c7⟩ := h
+  obtain ⟨c1, c2, c3, t1, t2, t3, t4, c4, c5, c6, c7⟩ := h
   constructor
   · rw [h1, h2, e.deqd, e.flushed, c1]; simp
   · rw [e.rxOpen, e.flushed]; exact c2
-  · rw [e.handled, e.deqd]; exact c3
+  · rw [e.handled, e.deqd, e.taken, e.dropped]; exact c3
+  · rw [e.taken, e.rxStopped]; exact t1
+  · rw [e.dropped, e.stoppedByOther, e.rxStopped]; exact t2
+  · rw [e.dropped]; exact t3
+  · rw [e.dropped, e.deqd]; exact t4
   · rw [e.drainedExits, e.deqd]; exact c4
   · rw [e.deqd, e.rxStopped]; exact c5
   · rw [e.rxOpen, e.rxStopped]; exact c6
   · rw [e.rxStopped, e.stoppedByOther, e.deqd]; exact c7
 
 theorem qinv_rx {s : Shared} (tid : Tid) (h : QInv s) : QInv (stepRx s tid) := by
-  obtain ⟨c1, c2, c3, c4, c5, c6, c7⟩ := h
+  obtain ⟨c1, c2, c3, t1, t2, t3, t4, c4, c5, c6, c7⟩ := h
   cases tid with
   | recv =>
     simp only [stepRx]
@@ -50,18 +63,34 @@ theorem qinv_rx {s : Shared} (tid : Tid) (h : QInv s) : QInv (stepRx s tid) := b
     · rename_i hc
       simp only [Bool.and_eq_true, Bool.not_eq_true'] at hc
       have hf := c2 hc.1
+      have hd : s.dropped = [] := by
+        cases hd : s.dropped with
+        | nil => rfl
+        | cons x l => have := (t2 (by simp [hd])).2; simp_all
       split
-      · exact ⟨c1, c2, c3, c4, c5, c6, c7⟩
-      · rename_i i q hq
+      · rename_i i hi
         constructor <;> simp_all [msgIds_append, msgIds, List.count_append]
-      · rename_i q hq
-        constructor <;> simp_all [msgIds_append, msgIds, List.count_append]
-    · exact ⟨c1, c2, c3, c4, c5, c6, c7⟩
-  | rxStop => constructor <;> simp_all [stepRx]
+      · split
+        · exact ⟨c1, c2, c3, t1, t2, t3, t4, c4, c5, c6, c7⟩
+        · rename_i i q hq
+          constructor <;> simp_all [msgIds_append, msgIds, List.count_append]
+        · rename_i q hq
+          constructor <;> simp_all [msgIds_append, msgIds, List.count_append]
+    · exact ⟨c1, c2, c3, t1, t2, t3, t4, c4, c5, c6, c7⟩
+  | rxStop =>
+    cases ht : s.taken with
+    | none => constructor <;> simp_all [stepRx]
+    | some i =>
+      have hrs := t1 (by simp [ht])
+      have hd : s.dropped = [] := by
+        cases hd : s.dropped with
+        | nil => rfl
+        | cons x l => have := (t2 (by simp [hd])).2; simp_all
+      constructor <;> simp_all [stepRx]
   | rxClose => simp only [stepRx]; split <;> constructor <;> simp_all
   | rxFlush => simp only [stepRx]; split <;> constructor <;> simp_all
   | setStatus st => constructor <;> simp_all [stepRx]
-  | t i => exact ⟨c1, c2, c3, c4, c5, c6, c7⟩
+  | t i => exact ⟨c1, c2, c3, t1, t2, t3, t4, c4, c5, c6, c7⟩
 
 theorem qinv_step (g : G) (tid : Tid) (h : QInv g.sh) : QInv (step g tid).sh := by
   cases tid with
@@ -147,9 +176,11 @@ theorem mono_rx (s : Shared) (tid : Tid) : Mono s (stepRx s tid) := by
     · rename_i hc
       simp only [Bool.and_eq_true, Bool.not_eq_true'] at hc
       split
-      · exact Mono.refl s
       · constructor <;> first | (refine ⟨[], ?_⟩; simp; done) | (refine ⟨[_], ?_⟩; rfl) | simp_all
-      · constructor <;> first | (refine ⟨[], ?_⟩; simp; done) | simp_all
+      · split
+        · exact Mono.refl s
+        · constructor <;> first | (refine ⟨[], ?_⟩; simp; done) | simp_all
+        · constructor <;> first | (refine ⟨[], ?_⟩; simp; done) | simp_all
     · exact Mono.refl s
   | rxStop => constructor <;> first | (refine ⟨[], ?_⟩; simp [stepRx]; done) | simp_all [stepRx]
   | rxClose =>
